@@ -119,6 +119,10 @@ fn sorted_strict<R: Ord>(v: &[R]) -> bool {
 fn run_grammar<P: Parser<R>, R: RuleType>(rep: &mut Report, args: &Args, mode: &str, gname: &str, file: &str, start: R, start_name: &str, rng: &mut Rng, n: usize) {
     let dir = args.opt("grammars-dir").unwrap_or("/repo/grammars/src/grammars");
     let text = std::fs::read_to_string(format!("{dir}/{file}")).expect("bundled grammar file");
+    let types: Types = match pest_meta::parse_and_optimize(&text) {
+        Ok((_, rules)) => rules.iter().map(|r| (r.name.clone(), r.ty)).collect(),
+        Err(_) => Types::new(),
+    };
     let max_len = if mode == "c12g" { 24 } else { 240 };
     let docs = documents(&text, start_name, rng, n, max_len);
     for (doc, kind) in &docs.docs {
@@ -127,11 +131,13 @@ fn run_grammar<P: Parser<R>, R: RuleType>(rep: &mut Report, args: &Args, mode: &
             return;
         }
         rep.journal(|| json!({"grammar": gname, "input": doc, "mode": mode}));
-        check_doc::<P, R>(rep, mode, gname, start, doc, kind);
+        check_doc::<P, R>(rep, mode, gname, start, doc, kind, Some(&types));
     }
 }
 
-fn check_doc<P: Parser<R>, R: RuleType>(rep: &mut Report, mode: &str, gname: &str, start: R, doc: &str, kind: &str) {
+type Types = std::collections::HashMap<String, pest_meta::ast::RuleType>;
+
+fn check_doc<P: Parser<R>, R: RuleType>(rep: &mut Report, mode: &str, gname: &str, start: R, doc: &str, kind: &str, types: Option<&Types>) {
     let prop = match mode {
         "c15g" => "C15",
         "c08g" => "C08",
@@ -204,6 +210,11 @@ fn check_doc<P: Parser<R>, R: RuleType>(rep: &mut Report, mode: &str, gname: &st
                 _ => true,
             };
             let mut problems = vmon::errcheck::check(&acts, info, |_| true);
+            if let Some(t) = types {
+                if !t.is_empty() {
+                    problems.extend(vmon::errcheck::check_atomicity(&ex.events, t));
+                }
+            }
             if !sorted {
                 problems.push("clause 3: a list is not strictly sorted".into());
             }
@@ -275,10 +286,10 @@ pub fn run(args: &Args) {
         let w = if v["witness"].is_object() { v["witness"].clone() } else { v.clone() };
         let doc = w["input"].as_str().unwrap_or("");
         match w["grammar"].as_str().unwrap_or("") {
-            "json" => check_doc::<pest_grammars::json::JsonParser, _>(&mut rep, &mode, "json", pest_grammars::json::Rule::json, doc, "replay"),
-            "toml" => check_doc::<pest_grammars::toml::TomlParser, _>(&mut rep, &mode, "toml", pest_grammars::toml::Rule::toml, doc, "replay"),
-            "sql" => check_doc::<pest_grammars::sql::SqlParser, _>(&mut rep, &mode, "sql", pest_grammars::sql::Rule::Command, doc, "replay"),
-            _ => check_doc::<pest_grammars::http::HttpParser, _>(&mut rep, &mode, "http", pest_grammars::http::Rule::http, doc, "replay"),
+            "json" => check_doc::<pest_grammars::json::JsonParser, _>(&mut rep, &mode, "json", pest_grammars::json::Rule::json, doc, "replay", None),
+            "toml" => check_doc::<pest_grammars::toml::TomlParser, _>(&mut rep, &mode, "toml", pest_grammars::toml::Rule::toml, doc, "replay", None),
+            "sql" => check_doc::<pest_grammars::sql::SqlParser, _>(&mut rep, &mode, "sql", pest_grammars::sql::Rule::Command, doc, "replay", None),
+            _ => check_doc::<pest_grammars::http::HttpParser, _>(&mut rep, &mode, "http", pest_grammars::http::Rule::http, doc, "replay", None),
         }
         rep.finish(args);
         return;
